@@ -206,14 +206,18 @@ func serializeDatetimeFromUnixNano(buf *bytes.Buffer, t int64) {
 	buf.WriteString(value.Int64ToStr(t))
 }
 
+// comparisonKeyTextEscaper keeps free text from imitating the ":" that separates the
+// components of a comparison key.
+var comparisonKeyTextEscaper = strings.NewReplacer("\\", "\\\\", ":", "\\:")
+
 func serializeString(buf *bytes.Buffer, s string) {
 	buf.Write([]byte{91, 83, 93})
-	buf.WriteString(strings.ToUpper(option.TrimSpace(s)))
+	buf.WriteString(comparisonKeyTextEscaper.Replace(strings.ToUpper(option.TrimSpace(s))))
 }
 
 func serializeCaseSensitiveString(buf *bytes.Buffer, s string) {
 	buf.Write([]byte{91, 83, 93})
-	buf.WriteString(option.TrimSpace(s))
+	buf.WriteString(comparisonKeyTextEscaper.Replace(option.TrimSpace(s)))
 }
 
 func serializeBoolean(buf *bytes.Buffer, b bool) {
